@@ -20,6 +20,7 @@ func checkC06(c *chk.Ctx) {
 	c.Decided = []string{
 		"R06a nothing reachable from applying a logged request reads the clock, random sources, the environment or generates ids",
 		"R06b the apply code reads no re-assignable package-level variable and only the frozen set of db fields",
+		"R06g the leader applies every committed entry: a request popped from the commit queue always gets its success continuation (never an error that depends on the caller's context)",
 		"R06c every apply site passes the offset and timestamp of the very log entry and the same callback chain",
 		"R06d the persisted last-version-id is read from the counter after the request was applied; the in-memory counter must not run ahead of an uncommitted batch (open finding F15)",
 		"R06e snapshot: sender flushes before the checkpoint; the receiver takes commit offset and head from the installed DB",
@@ -35,6 +36,7 @@ func checkC06(c *chk.Ctx) {
 	ruleR06c(h, "R06c")
 	ruleR06d(h)
 	ruleR06e(h)
+	ruleCommittedContinuationsSucceed(h, "R06g")
 	ruleReusedDecodeTargetReset(h, "R06f")
 }
 
